@@ -1136,13 +1136,22 @@ def strata_catalogue(tables, texts):  # pylint: disable=too-many-locals,too-many
 		'"plugins/..."': r'^#include "plugins/', '"<extension>/src/..."': r'^#include "[a-z]+/src/', '<boost/...>': r'^#include <boost/', '<std>': r'^#include <[a-z_]+>$',
 		'<c header .h>': r'^#include <[a-z_/]+\.h>$', '"mongo/..."': r'^#include "mongo/'}
 
+	def order_exempt(line):
+		# includes the linter's configuration (exclusions.SPECIAL_INCLUDES) exempts from the order rule ("always in an ifdef", ...)
+		import exclusions  # pylint: disable=import-error,import-outside-toplevel
+		spelled = line[len('#include '):].strip()
+		return any(pattern_.match(spelled) for pattern_ in exclusions.SPECIAL_INCLUDES)
+
 	def order_family(kind, regex):
 		pattern = re.compile(regex)
 
 		def make(rng, path, lines):
 			block = [i for i in range(len(lines)) if re.match(r'^#include ["<]', lines[i])]
 			start = 1 if path.endswith('.cpp') else 0
-			pairs = [a for a, b in zip(block[start:], block[start + 1:]) if b == a + 1 and lines[a] != lines[b] and pattern.match(lines[a]) and pattern.match(lines[b])]
+			# only neighbours that ARE in ascending order as written (a few files keep a deliberately unsorted pair, e.g. <windows.h> before
+			# <psapi.h>, and are exempted by the linter's exclusions): swapping an ascending same-class pair provably breaks the order
+			pairs = [a for a, b in zip(block[start:], block[start + 1:]) if b == a + 1 and lines[a] < lines[b] and lines[a].lower() < lines[b].lower()
+				and pattern.match(lines[a]) and pattern.match(lines[b]) and not order_exempt(lines[a]) and not order_exempt(lines[b])]
 			if not pairs:
 				return None
 			a = rng.choice(pairs)
